@@ -114,6 +114,13 @@ func (t *Directive) Validate(root *Root) (errs []error) {
 				if v, err := co.CoerceIn(copyValue(a.Default)); err != nil {
 					errs = append(errs, fmt.Errorf("%w at %d:%d", err, a.line, a.col))
 				} else {
+					if !schemaValue(v) {
+						// The Go type bound to an input type is not a value of
+						// the schema, once more without it.
+						if v, err = plainCoerce(a.Type, copyValue(a.Default)); err != nil {
+							continue
+						}
+					}
 					// Might as well replace the coerced value since it is really
 					// what is needed, once the load is known to be valid. (No
 					// comparison first, lists and objects are not comparable.)
